@@ -3,21 +3,43 @@ open Igris.Proto Igris.C17
 
 def bv (w : Nat) (s : String) : Option (BitVec w) := (parseHexNat? s).map (BitVec.ofNat w)
 
+def optHex (digits : Nat) {w : Nat} : Option (BitVec w) → String
+  | some v => hexOfNat digits v.toNat
+  | none => "fault"
+
 def stepLine (_ : Unit) (line : String) : Unit × String :=
   let r : Option String :=
     match words line with
     | ["reset"] => some "ok"
     | ["tbl8"] => some (bytesHex dscrcTable)
+    | ["check"] =>
+        let m9 : List Byte := [0x31, 0x32, 0x33, 0x34, 0x35, 0x36, 0x37, 0x38, 0x39]
+        some (optHex 2 (crc8M m9 9 0) ++ " " ++ optHex 2 (crc8TableM m9 9 0) ++ " " ++ optHex 2 (mmcCrc7M m9 9) ++ " "
+          ++ hexOfNat 2 (strmcrc8 0xff m9).toNat ++ " " ++ optHex 4 (crc16M m9 9 0) ++ " " ++ optHex 4 (crc16M m9 9 0xffff) ++ " "
+          ++ optHex 4 (crc16M m9 9 0x1d0f) ++ " " ++ optHex 8 (crc32 [0, 0, 0, 0] 4 0xffffffff) ++ " "
+          ++ optHex 8 (crc32 [0x34, 0x33, 0x32, 0x31, 0x38, 0x37, 0x36, 0x35] 8 0xffffffff))
     | ["mmc7", m] => do
         let m ← parseBytes? m
-        pure (hexOfNat 2 (mmcCrc7 m).toNat)
+        if m.length < 256 then pure (optHex 2 (mmcCrc7M m (BitVec.ofNat 8 m.length))) else none
+    -- explicit length: `<op> <len> <seed> <mapped bytes>` (len may differ from the number of mapped bytes)
+    | ["len", op, len, seed, m] => do
+        let m ← parseBytes? m
+        let n ← len.toNat?
+        match op with
+        | "crc8" => do let s ← bv 8 seed; if n < 256 then pure (optHex 2 (crc8M m (BitVec.ofNat 8 n) s)) else none
+        | "crc8t" => do let s ← bv 8 seed; if n < 256 then pure (optHex 2 (crc8TableM m (BitVec.ofNat 8 n) s)) else none
+        | "crc16" => do let s ← bv 16 seed; if n < 65536 then pure (optHex 4 (crc16M m (BitVec.ofNat 16 n) s)) else none
+        | "mmc7" => if n < 256 then pure (optHex 2 (mmcCrc7M m (BitVec.ofNat 8 n))) else none
+        | "crc32" => do let s ← bv 32 seed; if n < 2 ^ 32 then pure (optHex 8 (crc32 m n s)) else none
+        | _ => none
     | op :: seed :: m :: rest => do
         let m ← parseBytes? m
         match op with
         | "strm" => do let s ← bv 8 seed; pure (hexOfNat 2 (strmcrc8 s m).toNat)
-        | "crc8" => do let s ← bv 8 seed; pure (hexOfNat 2 (crc8 m s).toNat)
-        | "crc8t" => do let s ← bv 8 seed; pure (hexOfNat 2 (crc8Table m s).toNat)
-        | "crc16" => do let s ← bv 16 seed; pure (hexOfNat 4 (crc16 m s).toNat)
+        -- the model is given exactly the caller's bytes and the length with its C width
+        | "crc8" => do let s ← bv 8 seed; if m.length < 256 then pure (optHex 2 (crc8M m (BitVec.ofNat 8 m.length) s)) else none
+        | "crc8t" => do let s ← bv 8 seed; if m.length < 256 then pure (optHex 2 (crc8TableM m (BitVec.ofNat 8 m.length) s)) else none
+        | "crc16" => do let s ← bv 16 seed; if m.length < 65536 then pure (optHex 4 (crc16M m (BitVec.ofNat 16 m.length) s)) else none
         | "crc32" => do
             let s ← bv 32 seed
             -- the model is given exactly the caller's bytes: a read outside them is a fault
